@@ -381,6 +381,14 @@ impl OutstationSession {
         self.handle_next_message().await
     }
 
+    /// forget everything that belongs to a previous communication session
+    pub(crate) fn reset(&mut self, database: &mut DatabaseHandle) {
+        self.state.reset();
+        // a response still awaiting its confirmation dies with the session:
+        // put the events it carried back on offer
+        database.reset();
+    }
+
     pub(crate) async fn run(
         &mut self,
         io: &mut PhysLayer,
